@@ -68,7 +68,7 @@ type (
 	// CompressConfig compress config
 	CompressConfig struct {
 		Name   string          `json:"name,omitempty" yaml:"name,omitempty" validate:"required,xName"`
-		Levels map[string]uint `json:"levels,omitempty" yaml:"levels,omitempty"`
+		Levels map[string]uint `json:"levels,omitempty" yaml:"levels,omitempty" validate:"omitempty,dive,keys,oneof=gzip br,endkeys"`
 		Remark string          `json:"remark,omitempty" yaml:"remark,omitempty"`
 	}
 	// CacheConfig cache config
